@@ -134,6 +134,18 @@ def _fn_case(case):
         s_ba = float(FSCAlignment(b).score(a, q, z))
         case.check(-1 - 1e-4 <= s_ab <= 1 + 1e-4, "FSCAlignment.score outside [-1,1]", got=s_ab)
         case.check(abs(s_ab - s_ba) <= 1e-3, "FSCAlignment.score not symmetric", ab=s_ab, ba=s_ba)
+        # inputs whose shells are exactly empty (constant or blank sub-volumes): only shells carrying power in both
+        # inputs are averaged, whichever of the two is the template
+        for nm_, flat in (("constant", np.full(shape, 2.5, np.float32)), ("zero", np.zeros(shape, np.float32))):
+            s1 = float(m.score(flat, q, z))
+            s2 = float(FSCAlignment(flat).score(a, q, z))
+            case.check(np.isfinite(s1) and np.isfinite(s2) and -1 - 1e-4 <= s1 <= 1 + 1e-4,
+                       f"FSCAlignment.score with a {nm_} image is not a finite value in [-1,1]", None, ab=s1, ba=s2)
+            case.check(not (np.isfinite(s1) and np.isfinite(s2)) or abs(s1 - s2) <= 1e-3,
+                       f"FSCAlignment.score with a {nm_} image is not symmetric", None, ab=s1, ba=s2)
+            res_ = m.align(flat, (1.5, 1.0, 2.0), q, z)
+            case.check(bool(np.all(np.isfinite(np.asarray(res_.shift, float)))) and np.isfinite(float(res_.score)),
+                       f"FSC alignment of a {nm_} image is not finite", None, shift=res_.shift, score=float(res_.score))
 
 
 def _loader_case(case):
